@@ -5,9 +5,12 @@ cd /repo || exit 2
 if [ -n "$(git status --porcelain)" ]; then echo "repo not clean"; exit 2; fi
 git apply "$patch" || { echo "patch does not apply"; exit 2; }
 for p in "$@"; do
+  # the evidence of a run on a modified tree must never replace the committed evidence of the unchanged tree
+  cp /verif/evidence/$p.json /tmp/seedtest_evidence_$p.json 2>/dev/null
   out=$(cd /verif && bin/exovc check -p $p 2>&1)
   echo "[$p] exit=$? $(echo "$out" | grep -c '^VIOLATION') violations"
   echo "$out" | grep '^VIOLATION' | sed 's/replay=[^ ]* //' | cut -c1-220 | head -4
+  [ -f /tmp/seedtest_evidence_$p.json ] && mv /tmp/seedtest_evidence_$p.json /verif/evidence/$p.json
 done
 git apply -R "$patch"
 git status --porcelain | head -3
